@@ -5,6 +5,7 @@ import Solstat.Spec.C05
 import Solstat.Spec.C07
 import Solstat.Spec.C06
 import Solstat.Spec.C09
+import Solstat.Spec.C08
 import Solstat.Gen.Patterns
 /-!
 # Correspondence-check plumbing (not part of the verified model)
